@@ -73,6 +73,29 @@ func mLabels(l labelSet) []string {
 	return out
 }
 
+// isUvarintDecoder: an in-package helper whose first result is, on a return,
+// the value decoded by binary.Uvarint inside it (`v, n := binary.Uvarint(buf);
+// return v, n, nil`): a call of it is a decode event like binary.Uvarint itself.
+func (c *Ctx) isUvarintDecoder(fn *ssa.Function) bool {
+	if fn == nil || !c.inRoot(fn) || fn.Blocks == nil || fn.Signature.Results().Len() == 0 {
+		return false
+	}
+	for _, b := range fn.Blocks {
+		ret, ok := b.Instrs[len(b.Instrs)-1].(*ssa.Return)
+		if !ok || len(ret.Results) == 0 {
+			continue
+		}
+		if ex, ok := resolveLoad(ret.Results[0]).(*ssa.Extract); ok && ex.Index == 0 {
+			if call, ok := ex.Tuple.(*ssa.Call); ok {
+				if sc := call.Call.StaticCallee(); sc != nil && funcFullName(sc) == "encoding/binary.Uvarint" {
+					return true
+				}
+			}
+		}
+	}
+	return false
+}
+
 // unitOf classifies the increment added to a statistics map entry.
 func (c *Ctx) unitOf(v ssa.Value, seen map[ssa.Value]bool) []string {
 	if seen[v] {
@@ -112,6 +135,8 @@ func (c *Ctx) unitOf(v ssa.Value, seen map[ssa.Value]bool) []string {
 			case fnName(sc) == "(*Posting).Frequency":
 				return []string{"FREQ"}
 			case funcFullName(sc) == "encoding/binary.Uvarint":
+				return []string{"FILE"}
+			case c.isUvarintDecoder(sc):
 				return []string{"FILE"}
 			}
 			return []string{"OTHER:" + fnName(sc)}
@@ -299,7 +324,7 @@ func init() {
 			for _, b := range lf.Blocks {
 				for _, ins := range b.Instrs {
 					if call, ok := ins.(*ssa.Call); ok {
-						if sc := call.Call.StaticCallee(); sc != nil && funcFullName(sc) == "encoding/binary.Uvarint" {
+						if sc := call.Call.StaticCallee(); sc != nil && (funcFullName(sc) == "encoding/binary.Uvarint" || c.isUvarintDecoder(sc)) {
 							n++
 							order[call] = n
 						}
@@ -340,8 +365,12 @@ func init() {
 			}{{"fieldDocs", 4}, {"fieldFreqs", 5}} {
 				key := "initSegmentBase/" + want.field
 				ok := false
+				wantParam := paramNamed(isb, want.field)
+				if wantParam == nil {
+					wantParam = isb.Params[want.param]
+				}
 				for _, st := range c.census().fieldStores[fieldKey{seg, want.field}] {
-					if st.fn == isb && st.val == ssa.Value(isb.Params[want.param]) {
+					if st.fn == isb && st.val == ssa.Value(wantParam) {
 						ok = true
 					}
 				}
